@@ -50,11 +50,13 @@ const (
 	opRawEntry
 	opRebuild
 	opPartial
+	opBurst
+	opFan
 	nOps
 )
 
 var opNames = [...]string{"end", "append", "joinlive", "send", "deliver", "publish", "crash", "restart", "partition", "heal",
-	"clockjump", "special", "setid", "algebra", "stall", "iter", "bounded", "byz", "denied", "reader", "tamper", "policy", "crashall", "refused", "rawentry", "rebuild", "partial"}
+	"clockjump", "special", "setid", "algebra", "stall", "iter", "bounded", "byz", "denied", "reader", "tamper", "policy", "crashall", "refused", "rawentry", "rebuild", "partial", "burst", "fan"}
 
 type Profile struct {
 	Prop    string
@@ -90,6 +92,8 @@ func baseWeights() [nOps]int {
 	w[opRefused] = 3
 	w[opByz] = 2
 	w[opRebuild] = 3
+	w[opBurst] = 1
+	w[opFan] = 1
 	return w
 }
 
@@ -163,6 +167,8 @@ type World struct {
 	PCMode       int
 	payloadSeq   int
 	emptyUsed    bool
+	bursts       int
+	fans         int
 	sharedNode   *ipfslog.LogOptions
 	F            struct{ drop, dup, partition, crash, stall, clockjump, adderr bool }
 	Ptrs         []ptrRec
@@ -535,6 +541,76 @@ func (w *World) doAppend() {
 	if w.R.Bool("persist-hash", 1, 3) {
 		n.Durable = &durablePtr{kind: 1, c: e.GetHash(), set: copySet(n.Set)}
 	}
+}
+
+// doBurst: a replica appends a few dozen entries in a row - more than the default concurrency, more than a
+// power of two or two of reference pointers, more than small examples ever hold - so that later merges, loads,
+// iterations and cuts work on batches and histories beyond the sizes at which fast paths, pools and buffers
+// change behaviour. At most twice per world (runs stay short).
+func (w *World) doBurst() {
+	n := w.pickUp("burst-node")
+	k := 17 + w.R.Choose("burst-len", 40)
+	pc := w.pointerCount()
+	if n == nil || w.bursts >= 2 {
+		return
+	}
+	w.bursts++
+	for i := 0; i < k; i++ {
+		before := w.M.Heads(n.Set)
+		maxT := w.M.MaxTime(n.Set)
+		e, err := n.Log.Append(w.ctx, w.payload(), &ipfslog.AppendOptions{PointerCount: pc})
+		if err != nil {
+			w.R.Violate(w.P.Prop+":append-error", "append %d of a burst on replica %d failed without any injected fault: %v", i, n.Idx, err)
+		}
+		me := w.register(e)
+		if w.P.Check["C04"] {
+			w.checkAppend(n, e, me, before, maxT, pc)
+		}
+		n.Set[me.Hash] = true
+		w.recordPointer(n, 1, e.GetHash())
+	}
+	w.R.Probe("burst-of-appends")
+	w.R.Logf("burst n%d: %d appends pc=%d, now |set|=%d", n.Idx, k, pc, len(n.Set))
+}
+
+// doFan: a wide fork. 9-24 logs are opened on a replica's current state (by the world's writers, each with a
+// clock of its own so that no two of the new entries tie), each appends one entry, and the replica merges them
+// all: it then has more heads than any small example, its next append names them all, traversals hold them
+// all on their stack, and a load of it queues them all at once. Once per world.
+func (w *World) doFan() {
+	n := w.pickUp("fan-node")
+	k := 9 + w.R.Choose("fan-width", 16)
+	pc := w.pointerCount()
+	if n == nil || w.fans >= 1 || w.Codec == "pb" {
+		return
+	}
+	w.fans++
+	base := w.M.MaxTime(n.Set)
+	var clones []*ipfslog.IPFSLog
+	for i := 0; i < k; i++ {
+		wr := Writers()[i%len(Writers())] // (all identities there are: more distinct keys than small examples ever verify)
+		o := w.logOpts()
+		o.Entries = n.Log.GetEntries()
+		o.Heads = n.Log.Heads().Slice()
+		o.Clock = entry.NewLamportClock(wr.ID.PublicKey, base+1+i)
+		c := w.newLog(wr, o)
+		e, err := c.Append(w.ctx, w.payload(), &ipfslog.AppendOptions{PointerCount: pc})
+		if err != nil {
+			w.R.Violate(w.P.Prop+":append-error", "append on a log opened on replica %d's state failed without any injected fault: %v", n.Idx, err)
+		}
+		w.register(e)
+		clones = append(clones, c)
+	}
+	for i, c := range clones {
+		if _, err := n.Log.Join(c, -1); err != nil {
+			w.R.Violate(w.P.Prop+":join-error", "merge %d of a wide fork into replica %d failed: %v", i, n.Idx, err)
+		}
+		for _, e := range liveSlice(c.GetEntries()) {
+			n.Set[e.GetHash().String()] = true
+		}
+	}
+	w.R.Probe("wide-fork-merged")
+	w.R.Logf("fan n%d: %d branches merged, now |set|=%d heads=%d", n.Idx, k, len(n.Set), len(w.M.Heads(n.Set)))
 }
 
 // appendViaEntryAPI: the application (or another implementation of the protocol) builds the next entry
@@ -1270,7 +1346,7 @@ func (w *World) checkNode(n *Node) {
 			sv = append(sv, e.GetHash().String())
 		}
 		w.checkValues(n, "ToSnapshot().Values", sv, lin, strict)
-		if !w.PayloadBin && w.step%3 == 0 {
+		if !w.PayloadBin && w.step%3 == 0 && len(vals) <= 24 { // (ToString costs the library cubic time in the number of entries)
 			w.checkToString(n, vals)
 		}
 	}
@@ -1541,6 +1617,10 @@ func (w *World) dispatch(op int) {
 		w.doRebuild()
 	case opPartial:
 		w.doPartial()
+	case opBurst:
+		w.doBurst()
+	case opFan:
+		w.doFan()
 	default:
 		w.dispatchExt(op)
 	}
